@@ -947,6 +947,9 @@ func (p c10) changes(c *core.C, t *core.T, r *core.Rand) {
 		var cl []string
 		for k := r.Range(1, 4); k > 0; k-- {
 			cl = append(cl, fmt.Sprint(100000+r.Intn(900000)))
+			if r.Chance(1, 3) { // the early bugs: one and two digits
+				cl[len(cl)-1] = fmt.Sprint(1 + r.Intn(99))
+			}
 		}
 		d.list(r, "Closes", "Closes", cl, " ", false)
 	}
